@@ -295,7 +295,9 @@ class OnlineVariance(object):
                     average += avg*cnt
         average/=size
         #print('AVERGAE',average)
-        counts = np.array(counts) * size/np.sum(counts)
+        # (size is the sum of counts: rescaling by size/sum is the identity but
+        # underflows to zero when every weight is tiny)
+        counts = np.array(counts)
 
         squares = None
 
